@@ -22,12 +22,11 @@ import (
 // nil-receiver-safe). One obligation per function and element variable; the
 // report names the first unguarded dereference.
 //
-// Scope: the packages that make up the regime-independent document model and
-// its calculation (bill, pay, org, tax, head, note, schema, cbc, currency, the
-// root package). The regime and addon packages are not covered by this rule.
+// Scope: every package of the module except examples and cmd (the regime and
+// addon packages included).
 func c14DocNilElems(c *core.Ctx) {
 	p := c.P
-	c.Rule("C14-R11", "elements of the documents' slices of pointers are nil-tested before they are dereferenced (core packages)", 20)
+	c.Rule("C14-R11", "elements of the documents' slices of pointers are nil-tested before they are dereferenced", 20)
 	// the document types: the closure of the registered types other than the tax definition
 	// tables (regime, addon and catalogue definitions are Go literals of the library or, when
 	// parsed, are only validated)
@@ -60,11 +59,7 @@ func c14DocNilElems(c *core.Ctx) {
 			return false
 		}
 		rel := core.RelPkg(pk.Path())
-		switch rel {
-		case "", "bill", "pay", "org", "tax", "head", "note", "schema", "cbc", "currency", "regimes/common":
-			return true
-		}
-		return false
+		return rel != "examples" && !strings.HasPrefix(rel, "cmd/")
 	}
 	// []*T with T a struct of the document closure
 	docElem := func(t types.Type) bool {
